@@ -381,6 +381,10 @@ type CqlServerConnection struct {
 	ctx                context.Context
 	cancel             context.CancelFunc
 	payloadAccumulator *payloadAccumulator
+
+	// channelsLock guards the closing of the outgoing channel: senders hold the read lock while they check that the
+	// connection is not closed and enqueue (without blocking); Close closes the channel under the write lock.
+	channelsLock sync.RWMutex
 }
 
 func newCqlServerConnection(
@@ -719,6 +723,8 @@ func (c *CqlServerConnection) invokeRequestHandlers(request *frame.Frame) {
 
 // Send sends the given response frame.
 func (c *CqlServerConnection) Send(f *frame.Frame) error {
+	c.channelsLock.RLock()
+	defer c.channelsLock.RUnlock()
 	if c.IsClosed() {
 		return fmt.Errorf("%v: connection closed", c)
 	}
@@ -734,6 +740,8 @@ func (c *CqlServerConnection) Send(f *frame.Frame) error {
 
 // SendRaw sends the given response frame (already encoded).
 func (c *CqlServerConnection) SendRaw(rawResponse []byte) error {
+	c.channelsLock.RLock()
+	defer c.channelsLock.RUnlock()
 	if c.IsClosed() {
 		return fmt.Errorf("%v: connection closed", c)
 	}
@@ -780,11 +788,12 @@ func (c *CqlServerConnection) Close() (err error) {
 		c.cancel()
 		err = c.conn.Close()
 		incoming := c.incoming
-		outgoing := c.outgoing
 		c.incoming = nil
-		c.outgoing = nil
 		close(incoming)
-		close(outgoing)
+		// the outgoing field is not set to nil, it is read by Send, SendRaw and by the outgoing loop
+		c.channelsLock.Lock()
+		close(c.outgoing)
+		c.channelsLock.Unlock()
 		c.waitGroup.Wait()
 		c.onClose(c)
 		if err != nil {
